@@ -128,11 +128,16 @@ func c20GenExact(r *vfRand, total int64, ts0 int64) (lines []c20Line) {
 
 func c20Write(path string, lines []c20Line) error {
 	var b bytes.Buffer
+	b.Grow(int(c20Size(lines)))
 	for _, l := range lines {
 		b.WriteString(l.text)
 		b.WriteByte('\n')
 	}
-	return os.WriteFile(path, b.Bytes(), 0o644)
+	if err := os.WriteFile(path, b.Bytes(), 0o644); err != nil {
+		return err
+	}
+	// round 6: the metadata variant in force (zz_verif_C20align_test.go)
+	return c20CurMeta.apply(path, lines)
 }
 
 func c20CoqFile(lines []c20Line) string {
@@ -244,19 +249,29 @@ func c20Rank(lines []c20Line, ts int64) int {
 }
 
 // c20FileCase runs one single-file case.
-func c20FileCase(t *testing.T, out *vfOut, r *vfRand, dir string, kind string, lines []c20Line, maxSeeks int, classes []string) {
+func c20FileCase(t *testing.T, out *vfOut, r *vfRand, dir string, kind string, lines []c20Line, maxSeeks int, classes []string, opts ...c20FileOpt) {
 	ctx := context.Background()
 	logger := slogutil.NewDiscardLogger()
-	path := filepath.Join(dir, "f.json")
-	if err := c20Write(path, lines); err != nil {
-		t.Fatal(err)
+	var opt c20FileOpt
+	if len(opts) > 0 {
+		opt = opts[0]
 	}
-	defer os.Remove(path)
-	q, err := newQLogFile(path)
-	if err != nil {
-		t.Fatal(err)
+	path := opt.path
+	q := opt.q
+	var err error
+	if q == nil {
+		path = filepath.Join(dir, "f.json")
+		if err = c20Write(path, lines); err != nil {
+			t.Fatal(err)
+		}
+		defer os.Remove(path)
+		q, err = newQLogFile(path)
+		if err != nil {
+			t.Fatal(err)
+		}
+		defer q.Close()
 	}
-	defer q.Close()
+	metaWrap, metaDesc := c20MetaOf(path)
 
 	mon := &c20Mon{}
 	var ops []string
@@ -289,6 +304,19 @@ func c20FileCase(t *testing.T, out *vfOut, r *vfRand, dir string, kind string, l
 		}
 	}
 
+	// are all lines stamped (strictly increasing)?  Files holding lines without
+	// a stamp (one-byte lines, empty lines) are read backwards only.
+	stamped := true
+	for _, l := range lines {
+		if l.ts == 0 {
+			stamped = false
+		}
+	}
+	al := c20NewAlign(lines)
+	obs3 := func(line string) string {
+		return "(" + strconv.Itoa(len(line)) + "," + strconv.FormatInt(q.position, 10) + "," + strconv.FormatInt(q.bufferStart, 10) + ")"
+	}
+
 	// 1. full reverse read
 	p, err := q.SeekStart()
 	if err != nil {
@@ -299,13 +327,33 @@ func c20FileCase(t *testing.T, out *vfOut, r *vfRand, dir string, kind string, l
 	k := n - 1
 	inits := 0
 	lastBS := int64(-1)
+	var win *c20Window
 	for steps := 0; steps <= n+3; steps++ {
+		for _, w := range opt.windows {
+			if w == k && win == nil {
+				win = c20OpenWindow(q, lines, k)
+			}
+		}
+		al.before(q)
 		line, rerr := q.ReadNext()
 		if rerr != nil {
 			if rerr != io.EOF {
 				mon.fail("read-error", "ReadNext: %v", rerr)
 			}
+			if win != nil {
+				win.read(q, line, true)
+			}
 			break
+		}
+		if k >= 0 {
+			al.after(q, k, cls)
+		}
+		if win != nil {
+			win.read(q, line, false)
+			if len(win.ops) >= c20WindowReads {
+				win.emit(out, opt.sched, kind, mon, metaWrap, metaDesc)
+				win = nil
+			}
 		}
 		if q.bufferStart != lastBS {
 			inits++
@@ -316,13 +364,17 @@ func c20FileCase(t *testing.T, out *vfOut, r *vfRand, dir string, kind string, l
 				cls["chunk-start-in-[maxEntry,2maxEntry)"] = true
 			}
 		}
-		obs = append(obs, "("+strconv.Itoa(len(line))+","+strconv.FormatInt(q.position, 10)+")")
+		obs = append(obs, obs3(line))
 		if k < 0 {
 			mon.fail("reverse-extra", "reverse read returned more than %d lines", n)
 		} else if line != lines[k].text {
-			mon.fail("reverse-wrong-line", "reverse read step %d: expected line %d (len %d), got len %d", n-1-k, k, len(lines[k].text), len(line))
+			// byte-for-byte: where the first difference is
+			mon.fail("reverse-wrong-line", "reverse read step %d: expected line %d (len %d), got len %d: %s", n-1-k, k, len(lines[k].text), len(line), c20Diff(lines[k].text, line))
 		}
 		k--
+	}
+	if win != nil && len(win.ops) > 0 {
+		win.emit(out, opt.sched, kind, mon, metaWrap, metaDesc)
 	}
 	if k >= 0 && len(mon.msgs) == 0 {
 		mon.fail("reverse-incomplete", "reverse read stopped with %d lines not returned", k+1)
@@ -330,10 +382,46 @@ func c20FileCase(t *testing.T, out *vfOut, r *vfRand, dir string, kind string, l
 	if inits > 1 {
 		cls["buffer-reinit"] = true
 	}
-	ops = append(ops, vfApp("C20.FReadAll", vfList("Z * Z", obs)+"%Z"))
+	ops = append(ops, vfApp("C20.FReadAllB", vfList("Z * Z * Z", obs)+"%Z"))
+
+	// 2a. round 6: seeks to chosen records, each followed by reads through the
+	// lower end of the window the seek positions (the window of a read after a
+	// seek ends at the found record's end, like the one of a re-initialisation)
+	for _, at := range opt.seekThrough {
+		if !stamped || at.rec < 0 || at.rec >= n {
+			continue
+		}
+		pos, depth, serr := q.seekTS(ctx, logger, lines[at.rec].ts)
+		ops = append(ops, vfApp("C20.FSeek", vfZ(lines[at.rec].ts), vfZ(c20FileErrCode(serr)), vfZ(pos), vfZ(int64(depth)), vfZ(q.position)))
+		cls["seek-found"] = true
+		if serr != nil {
+			mon.fail("seek-present-error", "seek of present stamp of line %d/%d: %v", at.rec, n, serr)
+			continue
+		}
+		al.afterSeek = true
+		for j := 0; j < at.reads && at.rec-j >= 0; j++ {
+			al.before(q)
+			line, rerr := q.ReadNext()
+			if rerr != nil {
+				ops = append(ops, vfApp("C20.FReadB", vfOpt("Z * Z * Z", false, "")))
+				mon.fail("seek-then-eof", "read %d after seek to line %d: %v", j, at.rec, rerr)
+				break
+			}
+			al.after(q, at.rec-j, cls)
+			ops = append(ops, vfApp("C20.FReadB", vfOpt("Z * Z * Z", true, obs3(line)+"%Z")))
+			if line != lines[at.rec-j].text {
+				mon.fail("seek-mispositioned", "read %d after seek to line %d returned another line (len %d): %s", j, at.rec, len(line), c20Diff(lines[at.rec-j].text, line))
+			}
+		}
+		al.afterSeek = false
+	}
 
 	// 2. seeks, each followed by some reads
-	for _, ts := range c20Targets(r, lines, maxSeeks) {
+	var targets []int64
+	if stamped && maxSeeks >= 0 {
+		targets = c20Targets(r, lines, maxSeeks)
+	}
+	for _, ts := range targets {
 		if r.Chance(1, 8) {
 			// restart from the newest end after whatever the reader did before
 			sp, _ := q.SeekStart()
@@ -396,13 +484,25 @@ func c20FileCase(t *testing.T, out *vfOut, r *vfRand, dir string, kind string, l
 		}
 	}
 	c := vfCase{
-		Coq: vfApp("C20.CFile", vfZ(maxEntrySize), vfZ(bufferSize), c20CoqFile(lines),
-			vfList("C20.fop", ops)),
+		Coq: metaWrap(vfApp("C20.CFile", vfZ(maxEntrySize), vfZ(bufferSize), c20CoqFile(lines),
+			vfList("C20.fop", ops))),
 		Nontrivial: n > 0,
 		MonitorOK:  len(mon.msgs) == 0,
 		MonitorMsg: strings.Join(mon.msgs, "; "),
 		FindingKey: mon.key,
 		Desc:       map[string]any{"kind": "file/" + kind, "lines": n, "size": size, "first_lens": c20Lens(lines, 8)},
+	}
+	if metaDesc != nil {
+		c.Desc.(map[string]any)["metadata"] = metaDesc
+		cls["meta-"+c20CurMeta.kind] = true
+	}
+	if opt.layout != nil {
+		// the constructed layout: every line length, so that the file can be rebuilt
+		c.Desc.(map[string]any)["layout"] = opt.layout
+		c.Desc.(map[string]any)["all_lens_oldest_first_rle"] = c20LensRLE(lines)
+	}
+	if len(al.hits) > 0 {
+		c.Desc.(map[string]any)["alignments_hit"] = al.hits
 	}
 	for k := range cls {
 		c.Classes = append(c.Classes, k)
@@ -601,14 +701,19 @@ func c20ReaderCase(t *testing.T, out *vfOut, r *vfRand, dir string, kind string,
 	for i, f := range files {
 		fitems[i] = c20CoqFile(f)
 	}
+	metaWrap, metaDesc := c20MetaOf(paths...)
 	c := vfCase{
-		Coq: vfApp("C20.CReader", vfZ(maxEntrySize), vfZ(bufferSize), vfList("list (Z * Z)", fitems),
-			vfList("C20.rop", ops)),
+		Coq: metaWrap(vfApp("C20.CReader", vfZ(maxEntrySize), vfZ(bufferSize), vfList("list (Z * Z)", fitems),
+			vfList("C20.rop", ops))),
 		Nontrivial: n > 0,
 		MonitorOK:  len(mon.msgs) == 0,
 		MonitorMsg: strings.Join(mon.msgs, "; "),
 		FindingKey: mon.key,
 		Desc:       map[string]any{"kind": "reader/" + kind, "files": len(files), "lines": n},
+	}
+	if metaDesc != nil {
+		c.Desc.(map[string]any)["metadata"] = metaDesc
+		cls["meta-"+c20CurMeta.kind] = true
 	}
 	for k := range cls {
 		c.Classes = append(c.Classes, k)
@@ -631,6 +736,12 @@ func TestVerifC20(t *testing.T) {
 	out.Note("bufferSize", bufferSize)
 	const ts0 = int64(1700000000000000000)
 
+	// Files larger than the read buffer are expensive for the evaluator: they
+	// are queued and come out one after every few light cases, so that every
+	// coqc shard gets its share (round 6; before, the seed-independent ones
+	// all sat in the first shard).
+	sched := &c20Sched{}
+
 	// ---- prelude: one constructed representative per class (seed-independent)
 	pr := vfNewRand(20)
 	c20FileCase(t, out, pr, dir, "empty", nil, 10, []string{"empty-file"})
@@ -639,20 +750,55 @@ func TestVerifC20(t *testing.T) {
 	lim, _ := c20GenFile(pr, "limit", 5, 0, ts0, 0)
 	c20FileCase(t, out, pr, dir, "limit", lim, 20, []string{"lines-at-limit"})
 	// lines of maxEntrySize-1 bytes beyond the buffer: every window starts inside a line
-	big, _ := c20GenFile(pr, "limit", 0, bufferSize+5*maxEntrySize, ts0, 0)
-	c20FileCase(t, out, pr, dir, "limit-big", big, 30, []string{"lines-at-limit"})
+	sched.add(func() {
+		r := vfNewRand(2001)
+		big, _ := c20GenFile(r, "limit", 0, bufferSize+5*maxEntrySize, ts0, 0)
+		c20FileCase(t, out, r, dir, "limit-big", big, 30, []string{"lines-at-limit"})
+	})
 	// files just over one / two buffer sizes: the first 1.6 MB chunk (or the
 	// re-read one) starts at a file offset in (0, maxEntrySize)
 	for _, d := range []int64{1, 2, 700, 5000, 16084, 16383, 16384, 16385, 20000} {
-		ex := c20GenExact(pr, bufferSize+d, ts0)
-		if c20Size(ex) != bufferSize+d {
-			t.Fatalf("c20GenExact: size %d, want %d", c20Size(ex), bufferSize+d)
-		}
-		c20FileCase(t, out, pr, dir, "buffer+"+strconv.FormatInt(d, 10), ex, 12, []string{"size-just-over-buffer"})
+		d := d
+		sched.add(func() {
+			r := vfNewRand(uint64(2100 + d))
+			ex := c20GenExact(r, bufferSize+d, ts0)
+			if c20Size(ex) != bufferSize+d {
+				t.Fatalf("c20GenExact: size %d, want %d", c20Size(ex), bufferSize+d)
+			}
+			c20FileCase(t, out, r, dir, "buffer+"+strconv.FormatInt(d, 10), ex, 12, []string{"size-just-over-buffer"})
+		})
 	}
 	for _, d := range []int64{700, 9000, 16383} {
-		ex := c20GenExact(pr, 2*bufferSize+d, ts0)
-		c20FileCase(t, out, pr, dir, "2buffer+"+strconv.FormatInt(d, 10), ex, 12, []string{"size-just-over-2-buffers"})
+		d := d
+		sched.add(func() {
+			r := vfNewRand(uint64(2200 + d))
+			ex := c20GenExact(r, 2*bufferSize+d, ts0)
+			c20FileCase(t, out, r, dir, "2buffer+"+strconv.FormatInt(d, 10), ex, 12, []string{"size-just-over-2-buffers"})
+		})
+	}
+	// round 6: constructed alignments of line breaks and window boundaries
+	c20AlignedPrelude(t, out, dir, sched)
+	// round 6: every metadata variant on one file, one reader, one history, one
+	// byte-level file; a file that grows while it is open
+	{
+		mf, e0 := c20GenFile(pr, "short", 12, 0, ts0, 0)
+		mg, _ := c20GenFile(pr, "mixed", 9, 0, e0+1000, 12)
+		for _, mk := range c20MetaKinds {
+			c20CurMeta = c20MetaPolicy{kind: mk}
+			mr := vfNewRand(uint64(len(mk)))
+			c20FileCase(t, out, mr, dir, "meta", mf, 100, nil)
+			c20ReaderCase(t, out, mr, dir, "meta", [][]c20Line{mf, mg}, 100, nil)
+			c20HistoryCase(t, out, mr, dir, "meta", [][]c20Line{mf, mg}, 40, nil, nil)
+			c20BytesCase(t, out, mr, dir, "meta", c20EncFile(t, mr, 8, ts0, func(int) int { return 0 }), true, 30, nil)
+		}
+		c20CurMeta = c20MetaPolicy{}
+		// records stamped later than the file was written (clock set back, or a
+		// coarse file-system clock): a fixed date after any run of this harness
+		ff, _ := c20GenFile(pr, "short", 12, 0, 4_102_444_800_000_000_000, 0)
+		c20FileCase(t, out, pr, dir, "stamps-after-mtime", ff, 100, []string{"meta-stamps-after-mtime"})
+		c20ReaderCase(t, out, pr, dir, "stamps-after-mtime", [][]c20Line{ff[:5], ff[5:]}, 100, []string{"meta-stamps-after-mtime"})
+		c20AppendCase(t, out, pr, dir, "small", [][]c20Line{mf[:4], mf[4:9], mf[9:], mg}, nil)
+		c20AppendCase(t, out, pr, dir, "from-empty", [][]c20Line{nil, mf[:1], mf[1:]}, nil)
 	}
 	sh, _ := c20GenFile(pr, "short", 400, 0, ts0, 0)
 	c20FileCase(t, out, pr, dir, "short-400", sh, 1000, nil)
@@ -709,23 +855,43 @@ func TestVerifC20(t *testing.T) {
 	kinds := []string{"short", "mixed", "mixed", "large", "medium", "limit"}
 	nSmall := out.Scale(260, 1500)
 	nBig := out.Scale(10, 40)
-	// big files are spread between the small ones so that the evaluator shards
+	// big files are spread between the light cases so that the evaluator shards
 	// are balanced
-	bigCase := func(i int) {
+	for i := 0; i < nBig; i++ {
 		r := rnd.Fork(uint64(1000000 + i))
-		kind := vfPick(r, []string{"large", "large", "mixed", "medium", "limit"})
-		total := bufferSize + r.Range(1, int64(out.Scale(900_000, 4_500_000)))
-		if kind == "medium" {
-			total = bufferSize + r.Range(1, 400_000)
-		}
-		lines, _ := c20GenFile(r, kind, 0, total, ts0, 0)
-		c20FileCase(t, out, r, dir, kind+"-big", lines, out.Scale(60, 200), nil)
+		sched.add(func() {
+			kind := vfPick(r, []string{"large", "large", "mixed", "medium", "limit"})
+			total := bufferSize + r.Range(1, int64(out.Scale(900_000, 4_500_000)))
+			if kind == "medium" {
+				total = bufferSize + r.Range(1, 400_000)
+			}
+			c20DrawMeta(r, 1, 4)
+			lines, _ := c20GenFile(r, kind, 0, total, ts0, 0)
+			c20FileCase(t, out, r, dir, kind+"-big", lines, out.Scale(60, 200), nil)
+			c20CurMeta = c20MetaPolicy{}
+		})
+	}
+	// round 6: drawn alignments (1-2 windows quick, 1-3 thorough); a big file
+	// that grows while it is open
+	c20AlignedRandom(t, out, rnd, dir, sched, out.Scale(4, 40), out.Scale(2, 3))
+	{
+		r := rnd.Fork(6100000)
+		sched.add(func() {
+			a, e := c20GenFile(r, "large", 0, bufferSize-r.Range(1, 40_000), ts0, 0)
+			b, _ := c20GenFile(r, "mixed", 0, r.Range(50_000, 400_000), e+5, len(a))
+			c20AppendCase(t, out, r, dir, "across-the-buffer-size", [][]c20Line{a, b}, sched)
+		})
+	}
+	// the byte-level windows queued by the heavy cases count as heavy as well
+	nLight := nSmall + out.Scale(60, 300) + out.Scale(25, 324) + out.Scale(150, 1200)
+	sched.period = nLight / (2*len(sched.heavy) + 4)
+	if sched.period < 1 {
+		sched.period = 1
 	}
 	for i := 0; i < nSmall; i++ {
-		if i%(nSmall/nBig) == 0 {
-			bigCase(i / (nSmall / nBig))
-		}
+		sched.light()
 		r := rnd.Fork(uint64(i))
+		c20DrawMeta(r, 1, 6)
 		kind := vfPick(r, kinds)
 		var n int
 		switch r.Intn(4) {
@@ -742,9 +908,12 @@ func TestVerifC20(t *testing.T) {
 		lines, _ := c20GenFile(r, kind, n, 0, ts0+r.Range(0, 1000000), 0)
 		c20FileCase(t, out, r, dir, kind, lines, 40, nil)
 	}
+	c20CurMeta = c20MetaPolicy{}
 	nRd := out.Scale(60, 300)
 	for i := 0; i < nRd; i++ {
+		sched.light()
 		r := rnd.Fork(uint64(2000000 + i))
+		c20DrawMeta(r, 1, 6)
 		nf := 1 + r.Intn(3)
 		if r.Chance(3, 4) {
 			nf = 2
@@ -773,16 +942,21 @@ func TestVerifC20(t *testing.T) {
 		}
 		c20ReaderCase(t, out, r, dir, "random", files, 30, nil)
 	}
+	c20CurMeta = c20MetaPolicy{}
 
 	// ---- byte-level cases (zz_verif_C20bytes_test.go)
-	c20BytesCases(t, out, dir, rnd)
+	c20BytesCases(t, out, dir, rnd, sched)
 
 	// ---- reader-reuse histories (zz_verif_C20hist_test.go)
 	nHist := out.Scale(150, 1200)
 	for i := 0; i < nHist; i++ {
+		sched.light()
 		r := rnd.Fork(uint64(3000000 + i))
+		c20DrawMeta(r, 1, 6)
 		nf := vfPick(r, []int{0, 1, 1, 2, 2, 2, 2, 3})
 		files := c20GenFiles(r, nf, ts0+r.Range(0, 1000000), 9, 14)
 		c20HistoryCase(t, out, r, dir, "random", files, int(r.Range(6, 32)), nil, nil)
 	}
+	c20CurMeta = c20MetaPolicy{}
+	sched.drain()
 }
